@@ -303,11 +303,12 @@ def run(ctx):
 
     # ---- C05.6 parser role tables ------------------------------------------------------------------------------------------------------
     # brackets: [..] re-enters the list parser with the SAME sub-parser
+    from . import common as _cm0
     nb = 0
     f_pml0 = repo.func('matcher._parse_matcher_list')
     for pname in ('_parse_arg_matcher', '_parse_arg_value_matcher', '_parse_text_matcher', '_parse_obj_matcher'):
         f = repo.func('matcher.' + pname)
-        par = f.params()[0]
+        par = _cm0.cparams(f)[0]
         for p in paths_of(repo, f, unroll=1):
             facts = {a_.text: v_ for a_, v_ in p.decisions}
             opens, closes = facts.get("%s.startswith('[')" % par), facts.get("%s.endswith(']')" % par)
@@ -348,6 +349,52 @@ def run(ctx):
                 ok = re.match(r"^\[sub_parser\((\w+)\) for \1 in _split_on\(text, ','\)\]\[0\]$", t) is not None
                 ctx.check(ok, 'C05.6', 'list:single-item-is-itself', f_pml.loc(), 'a single item (also inside redundant brackets) is the item itself', 'a single item is parsed as %s' % t[:200])
     ctx.floor('C05.6', n_pml, 3, 'returning paths of _parse_matcher_list')
+    # number words: every word Python reads as an integer (sign included) is an integer value, every word it reads as a float a float value,
+    # everything else is refused with RuntimeError (so that the next kind of value is tried) - decided by folding the parser's paths on sample
+    # words, with the conversion builtin's own verdict on the sample taken from Python (a total builtin applied to a constant)
+    from ..peval import fold as _foldv, Unfoldable as _Unfv
+    from . import common as _cm
+    for fname, conv, samples in (('_parse_int_matcher', int, ('5', '-5', '0', '+7', '007', '-0', '4294967295', '12345678901234567890', ' 5', 'abc', '1.5', '5a', '-', '0x10', 'nil', '"5"', '--5')),
+                                 ('_parse_float_matcher', float, ('1.5', '-1.5', '5', '-5', '1e3', '.5', '5.', '-0.0', 'abc', '1,5', '"1.5"', '1.5.5', '-'))):
+        f_num = repo.func('matcher.' + fname)
+        par = _cm.cparams(f_num)[0]
+        raises_conv = lambda e, cn=conv.__name__: ['ValueError'] if (e.ftext or '') == cn else ()
+        num_paths = paths_of(repo, f_num, may_raise=raises_conv)
+        nnum = 0
+        for word in samples:
+            try:
+                want = conv(word)
+                ok_word = True
+            except ValueError:
+                ok_word = False
+            got = set()
+            for p in _cm.paths_for_input(num_paths, {par: word}):
+                conv_failed = any(e.kind == 'raised-by-call' for e in p.events)
+                conv_called = any(e.kind == 'call' and e.ftext == conv.__name__ for e in p.events)
+                if conv_called and conv_failed == ok_word:
+                    continue            # the conversion's outcome on this path is not the one Python gives for this word
+                nnum += 1
+                if p.outcome[0] == 'raise':
+                    got.add('refused (%s)' % (p.outcome[1] if isinstance(p.outcome[1], str) else 'error'))
+                elif p.outcome[0] == 'return':
+                    rv = p.outcome[1]
+                    if isinstance(rv, ast.Call) and norm(rv.func) == 'EqMatcher' and rv.args:
+                        try:
+                            got.add('= %r' % (_foldv(rv.args[0], {par: word}),))
+                        except _Unfv:
+                            got.add('= ?')
+                    else:
+                        got.add(norm(rv)[:40])
+            if word in ('', '*'):
+                continue
+            if ok_word:
+                good = got == {'= %r' % (want,)}
+            else:
+                good = bool(got) and all(g.startswith('refused (RuntimeError') for g in got)
+            ctx.check(good, 'C05.6', 'number-word:%s:%s' % (fname, word), f_num.loc(),
+                      '%r %s' % (word, ('is the number %r' % (want,)) if ok_word else 'is refused with RuntimeError, so the next kind of value is tried'),
+                      '%s(%r) gives %s; %s' % (fname, word, sorted(got), ('Python reads the word as %r' % (want,)) if ok_word else 'it is not a number'))
+        ctx.floor('C05.6', nnum, 8, 'sample evaluations of ' + fname)
     # conn: obj.name(args)
     f_pmp = repo.func('matcher._parse_message_pattern')
     mp_init = repo.cls(M + 'MessagePattern').methods['__init__']
